@@ -171,6 +171,9 @@ type Property struct {
 	Corpus   func(env *Env) []Case // fixed cases that always run first (past failures, witnesses)
 	Assume   []string
 	Workers  int
+	// Escalate turns a model-vs-code disagreement on a component-level operation into end-to-end cases that carry
+	// the property's oracles: the search for a concrete failing input starts where the correspondence broke.
+	Escalate func(d Disagreement) []Case
 }
 
 var properties = map[string]*Property{}
@@ -283,6 +286,29 @@ func runProperty(pr *Property, env *Env, tier string, seed int64, lean leanResul
 	parallel(env, len(cases), workers, func(p *Pair, i int) {
 		outcomes[i] = runCase(p, env, cases[i])
 	})
+
+	// the correspondence broke somewhere: look for a failing input around the operations it broke on
+	if pr.Escalate != nil && !replayMode {
+		var extra []Case
+		seenX := map[string]bool{}
+		for i := range outcomes {
+			for _, d := range outcomes[i].disagree {
+				for _, c := range pr.Escalate(d) {
+					if h := c.hash(); !seenX[h] && len(extra) < 400 {
+						seenX[h] = true
+						extra = append(extra, c)
+					}
+				}
+			}
+		}
+		if len(extra) > 0 {
+			more := make([]caseOutcome, len(extra))
+			parallel(env, len(extra), workers, func(p *Pair, i int) {
+				more[i] = runCase(p, env, extra[i])
+			})
+			outcomes = append(outcomes, more...)
+		}
+	}
 
 	// known-finding witnesses
 	listed := listedFindings(pr.ID)
